@@ -87,7 +87,8 @@ MulAdd(i, k, j, m) == /\ i \in Jac /\ j \in Points /\ Val(i) # 0 /\ Val(j) # 0
                            /\ last' = Rec("muladd", i, j, k, m, r)
 Eq(i, j) == /\ i \in Points /\ j \in Points /\ Keep
             /\ last' = Rec("eq", i, j, 0, 0, IF Val(i) = Val(j) THEN 1 ELSE 0)
-Pickle(i) == /\ i \in Ix /\ Push(Val(i), Kind(i), Ord(i)) /\ last' = Rec("pickle", i, 0, 0, 0, Val(i))
+(* a copy made by pickling and unpickling (how = 0), copy.copy (1) or copy.deepcopy (2): same value, a new object *)
+Pickle(i, how) == /\ i \in Ix /\ Push(Val(i), Kind(i), Ord(i)) /\ last' = Rec("pickle", i, 0, how, 0, Val(i))
 (* keys *)
 NewKey(i) == /\ i \in Points /\ Val(i) # 0 /\ Room /\ Push(Val(i), "K", TRUE) /\ last' = Rec("newkey", i, 0, 0, 0, Val(i))
 Precompute(i, lazy) == /\ i \in Keys /\ Keep /\ last' = Rec("precompute", i, 0, lazy, 0, Val(i))
@@ -117,7 +118,8 @@ VerifyBy(i, j, e) == /\ i \in Keys /\ j \in SKeys /\ Keep
 Next ==
   \/ \E v \in NewVals, kind \in {"J", "G", "A"}, k \in 0..3 : New(v, kind, k)
   \/ \E i \in Ix : \E op \in {"x", "y", "scale"} : Read(op, i)
-  \/ \E i \in Ix : ToAffine(i) \/ Double(i) \/ Neg(i) \/ Pickle(i) \/ NewKey(i)
+  \/ \E i \in Ix : ToAffine(i) \/ Double(i) \/ Neg(i) \/ NewKey(i)
+  \/ \E i \in Ix, how \in 0..2 : Pickle(i, how)
   \/ \E i \in Ix, g \in {0, 1} : FromAffine(i, g)
   \/ \E i, j \in Ix : Add(i, j) \/ IAdd(i, j) \/ AddInf(i, j) \/ Eq(i, j) \/ KeyEq(i, j)
   \/ \E i \in Ix, k \in Scalars : Mul(i, k)
